@@ -39,7 +39,8 @@ SMALL = ["a", "A", "1", "_", "-", " ", ".", "$", "é", "\t", "", "class"]
 CONTEXTS = [("c", lambda c: c), ("a+c", lambda c: "a" + c), ("c+a", lambda c: c + "a"), ("a+c+b", lambda c: "a" + c + "b"), ("_+c+_", lambda c: "_" + c + "_"), ("c+c", lambda c: c + c)]
 TITLE_CONTEXTS = [("c", lambda c: c), ("A+c+b", lambda c: "A" + c + "b"), ("c+Abc", lambda c: c + "Abc")]
 MODULE_NAMES = {"Any", "List", "Union", "Maybe", "Property", "None", "True", "False", "AllOf", "AnyOf", "Array", "Boolean", "Element", "Integer", "Not", "Nothing", "Null", "Number", "Object", "OneOf", "String"}
-MACHINERY = ["properties", "default", "required", "additionalProperties", "patternProperties", "description", "inline", "validators", "type_validator", "annotation", "python", "mro", "const", "enum", "dependencies", "propertyNames", "minProperties", "maxProperties", "_dict", "_properties", "__dict__", "__weakref__", "__module__", "__slots__", "__properties__", "__items__", "construct", "self", "value", "cls", "_property"]
+MACHINERY = ["properties", "default", "required", "additionalProperties", "patternProperties", "description", "inline", "validators", "type_validator", "annotation", "python", "mro", "const", "enum", "dependencies", "propertyNames", "minProperties", "maxProperties", "_dict", "_properties", "__dict__", "__weakref__", "__module__", "__slots__", "__properties__", "__items__", "construct", "self", "value", "cls", "_property",
+             "__debug__", "__qualname__", "__annotations__", "__classcell__", "__name__", "__bases__", "__mro__", "__call__", "__getattr__", "__getitem__", "__iter__", "__len__", "__bool__", "__contains__", "__set_name__", "__prepare__", "__class_getitem__", "__mro_entries__", "__instancecheck__", "__subclasscheck__", "__get__", "__set__", "__delete__", "__del__", "__copy__", "__deepcopy__", "__post_init__", "__match_args__", "__orig_bases__", "__parameters__", "__origin__", "__args__", "__wrapped__", "__file__", "__builtins__", "__import__", "__build_class__", "__loader__", "__spec__", "__path__", "__all__"]
 
 
 def judge_image(src, img):
@@ -277,9 +278,13 @@ def behavioural_pair_required(st, n1, n2):
             st.violation("sibling-collapse:%s" % label, "sibling names %r and %r (%s): model keeps sources %s" % (n1, n2, label, sources), case)
 
 
+_NO_TITLE = object()
+
+
 def behavioural_title(st, title, autotitle=None):
-    schema = {"type": "object", "title": title, **({"_x_autotitle": autotitle} if autotitle is not None else {}), "properties": {"child": {"type": "object", "title": "Child", "properties": {"x": {"type": "array", "items": {"type": ["integer", "string"]}}}}}}
-    case = {"title": title}
+    schema = {"type": "object", **({"title": title} if title is not _NO_TITLE else {}), **({"_x_autotitle": autotitle} if autotitle is not None else {}), "properties": {"child": {"type": "object", "title": "Child", "properties": {"x": {"type": "array", "items": {"type": ["integer", "string"]}}}}}}
+    case = {"title": title if title is not _NO_TITLE else None, "autotitle": autotitle}
+    title = case["title"]
     st.add("evaluations")
     st.add("traces")
     try:
@@ -295,6 +300,9 @@ def behavioural_title(st, title, autotitle=None):
     except Exception as exc:
         if type(exc).__name__ in ("SchemaParseError", "FeatureNotImplementedError"):
             st.outcome("title-refused")
+            if isinstance(autotitle, str) and _ascii_alnum(autotitle) and not _ascii_alnum(title or ""):
+                # the labeller's automatic title is the documented fallback for objects without a usable title
+                st.violation("title:usable-autotitle-refused", "title %r with automatic title %r: %r" % (title, autotitle, exc), case)
             return
         st.violation("title:parse-raised:%s" % type(exc).__name__, "title %r: %r" % (title, exc), case)
         return
@@ -315,6 +323,10 @@ def behavioural_title(st, title, autotitle=None):
                 st.violation("title:generated-class-unusable", "title %r: generated class rejects valid data" % title, case)
     except Exception as exc:
         st.violation("title:module-broken:%s" % type(exc).__name__, "title %r (class name %r): generated module fails: %r" % (title, name, exc), {**case, "class_name": name})
+
+
+def _ascii_alnum(s):
+    return any(c.isascii() and c.isalnum() for c in s)
 
 
 def same_title_documents():
@@ -448,7 +460,8 @@ def work(item):
             st.add("transitions")
             behavioural_same_title(st, label, doc, k)
         # the automatic title is a fallback for titles without ASCII alphanumerics: it needs the same care
-        fallback = [(t, a) for t in ("é", "&", "日本", " ") for a in sorted(MODULE_NAMES) + [x.lower() for x in sorted(MODULE_NAMES)] + ["1st", "123", "a", "x y", "class", "def"]]
+        fallback = [(t, a) for t in ("", _NO_TITLE) for a in ("auto", "Object", "a b", 5, True, 1.5, ["x"], {"a": 1}, "", "$", "é")]
+        fallback += [(t, a) for t in ("é", "&", "日本", " ") for a in sorted(MODULE_NAMES) + [x.lower() for x in sorted(MODULE_NAMES)] + ["1st", "123", "a", "x y", "class", "def"]]
         for n, (t, a) in enumerate(fallback):
             if n % item[2] != item[1]:
                 continue
